@@ -32,8 +32,9 @@
 #include <nstd/System.hpp>
 // stand-ins for two library functions the pool only uses for configuration / diagnostics (System.cpp and
 // Debug.cpp would pull String/Memory into the scheduled process): processor count of the lazily created
-// pool = 4 on every machine; a failed ASSERT/VERIFY of the library is reported in the trace and traps.
-uint System::getProcessorCount() { return 4; }
+// pool = request option `ncpu` (default 4) on every machine; a failed ASSERT/VERIFY of the library is reported in the trace and traps.
+static uint g_ncpu = 4;   // request option ncpu=<n>: what System::getProcessorCount() reports (maxThreads of the lazily created pool)
+uint System::getProcessorCount() { return g_ncpu; }
 int Debug::printf(const char* format, ...)
 {
   va_list ap; va_start(ap, format); ::printf("X library-assert "); int r = vprintf(format, ap); va_end(ap); fflush(stdout); return r ? r : 1;
@@ -202,6 +203,7 @@ static int runScenario(char* line)
   static int dsteps[100000], dthreads[100000]; int ndev = 0;
   { const char* p = strstr(line, " dev="); if(p) { p += 5; while(*p && *p != ' ' && *p != '-') { dsteps[ndev] = (int)strtol(p, (char**)&p, 10); if(*p == ':') ++p; dthreads[ndev] = (int)strtol(p, (char**)&p, 10); ++ndev; if(*p == ',') ++p; } } }
   sched_set_devs(dsteps, dthreads, ndev);
+  g_ncpu = (uint)kv(line, "ncpu", 4);
   int split = (int)kv(line, "split", 0);
   sched_reset((unsigned long long)seed, pol, pre, npre, maxsteps, sp, tick, split);
   printf("P %d\n", split);
